@@ -15,6 +15,7 @@ import (
 	"context"
 	"fmt"
 	"math"
+	"regexp"
 	"sort"
 	"strconv"
 	"strings"
@@ -108,6 +109,7 @@ type expr struct {
 	y    string
 	l, r int64
 	k    val
+	id   int // M K: unique per occurrence (the closure's defining environment)
 }
 
 func (x expr) enc() string {
@@ -120,8 +122,12 @@ func (x expr) enc() string {
 		return fmt.Sprintf("S:%s:%d:%d", x.y, x.l, x.r)
 	case 'X':
 		return "X:" + x.y + ":" + x.k.enc()
-	case 'P', 'Q', 'M':
+	case 'P', 'Q':
 		return string(x.kind) + ":" + x.y + ":" + x.v.enc()
+	case 'M':
+		return fmt.Sprintf("M:%d:%s:%s", x.id, x.y, x.v.enc())
+	case 'K':
+		return fmt.Sprintf("K:%d:%s", x.id, x.v.enc())
 	case 'T':
 		return fmt.Sprintf("T:%s:%d:%d:%s", x.y, x.l, x.r, x.v.enc())
 	case 'G':
@@ -156,6 +162,8 @@ func (x expr) src(uniq *int) string {
 		return fmt.Sprintf("func(){%d;%s=%s;func(){%d;%s}}()", *uniq-1, x.y, x.v.src(), *uniq, x.y)
 	case 'G':
 		return x.y + "()"
+	case 'K':
+		return "mk(" + x.v.src() + ")"
 	default:
 		*uniq++
 		return fmt.Sprintf("func(pp){%d;pp[%s]=%s;pp}(%s)", *uniq, x.k.src(), x.v.src(), x.y)
@@ -277,6 +285,8 @@ func (a attempt) kindName() string {
 			return k + "-computed"
 		case 'M':
 			return k + "-closure"
+		case 'K':
+			return k + "-sametextclosure"
 		case 'G':
 			return k + "-closurecall"
 		default:
@@ -389,8 +399,12 @@ func decExpr(s string) expr {
 			x.l, x.r = i64(f[2]), i64(f[3])
 		case 'X':
 			x.k = decLeaf(f[2])
-		case 'P', 'Q', 'M':
+		case 'P', 'Q':
 			x.v = decValS(f[2])
+		case 'M':
+			x.id, x.y, x.v = int(i64(f[1])), f[2], decValS(f[3])
+		case 'K':
+			x.id, x.y, x.v = int(i64(f[1])), "", decValS(f[2])
 		case 'T':
 			x.l, x.r, x.v = i64(f[2]), i64(f[3]), decValS(f[4])
 		case 'C':
@@ -443,7 +457,9 @@ func newSession(noReg bool) *session {
 	s.NoReg = noReg
 	out := &strings.Builder{}
 	s.Out, s.LogOut, s.NoLog = out, out, true
-	return &session{s: s, opts: repl.Options{All: true, ShowEval: true, NoColor: true, NilAndErr: true, NoReg: noReg}}
+	se := &session{s: s, opts: repl.Options{All: true, ShowEval: true, NoColor: true, NilAndErr: true, NoReg: noReg}}
+	se.exec("mk=func(mkn){func(){mkn}}") // every closure it returns prints alike: ()=>mkn
+	return se
 }
 
 func (se *session) exec(src string) (string, bool, []string) {
@@ -477,6 +493,8 @@ func exact(o object.Object) string {
 		return s
 	}
 	switch o.Type() { //nolint:exhaustive // the rest prints as Inspect
+	case object.FUNC:
+		return "<fn>"
 	case object.ARRAY:
 		els := object.Elements(o)
 		parts := make([]string, len(els))
@@ -506,7 +524,14 @@ func (se *session) value(name string) (string, string) {
 	if err != nil {
 		return "-", "-"
 	}
-	return exact(o), o.Inspect()
+	if o.Type() == object.FUNC { // text says little about a function (closures print alike): show what it evaluates to
+		r, err := eval.EvalString(se.s, name+"()", false)
+		if err != nil {
+			return "<fn>=>?", "<fn>"
+		}
+		return "<fn>=>" + exact(r), "<fn>"
+	}
+	return exact(o), fnText.ReplaceAllString(o.Inspect(), "<fn>")
 }
 
 // the value as seen from inside a function
@@ -515,6 +540,14 @@ func (se *session) innerValue(name string) string {
 	o, err := eval.EvalString(se.s, fmt.Sprintf("func(){%d;%s}()", se.uniq, name), false)
 	if err != nil {
 		return "-"
+	}
+	if o.Type() == object.FUNC {
+		se.uniq++
+		r, err := eval.EvalString(se.s, fmt.Sprintf("func(){%d;%s()}()", se.uniq, name), false)
+		if err != nil {
+			return "<fn>=>?"
+		}
+		return "<fn>=>" + exact(r)
 	}
 	return exact(o)
 }
@@ -560,9 +593,7 @@ func c19Run(c *Ctx, noReg bool, names []string, evs []event, line string) runRes
 			_, passed = se.value(ev.a.y)
 		}
 		out, panicked, errs := se.exec(src)
-		if ev.a.kind == "AS" && ev.a.ex.kind == 'M' && strings.HasPrefix(out, "ok=") {
-			out = "ok=<fn>" // the text of the function value carries the unique statements
-		}
+		out = fnText.ReplaceAllString(out, "<fn>") // function texts (they carry the unique statements) print as <fn>
 		if ev.a.kind == "AS" || ev.a.kind == "DL" {
 			delete(cloFirst, ev.a.name)
 		}
@@ -642,7 +673,12 @@ func c19Run(c *Ctx, noReg bool, names []string, evs []event, line string) runRes
 	return res
 }
 
+var fnText = regexp.MustCompile(`\(\)=>(mkn|\{[^{}]*\})`)
+
 func typeOfRendering(v string) string {
+	if strings.HasPrefix(v, "<fn>") {
+		return "function"
+	}
 	switch {
 	case strings.HasPrefix(v, "["):
 		if strings.Count(v, ",") >= object.MaxSmallArray {
@@ -667,6 +703,16 @@ func typeOfRendering(v string) string {
 }
 
 func c19Seq(c *Ctx, names []string, evs []event) {
+	evs = append([]event(nil), evs...)
+	nid := 0
+	for i := range evs { // every closure-making occurrence gets its own id (its defining environment)
+		if evs[i].a.kind == "AS" && (evs[i].a.ex.kind == 'M' || evs[i].a.ex.kind == 'K') && evs[i].a.ex.id == 0 {
+			nid++
+			evs[i].a.ex.id = nid
+		} else if evs[i].a.ex.id > nid {
+			nid = evs[i].a.ex.id
+		}
+	}
 	parts := make([]string, len(evs))
 	for i, e := range evs {
 		parts[i] = e.enc()
@@ -888,6 +934,21 @@ func corpus() ([][]string, [][]event) {
 				T(asx("g2", expr{kind: 'M', y: "K", v: vi(5)})), T(asx("y", expr{kind: 'G', y: "g2"})), call("y"))
 			// a non constant name: the closure shares the top-level variable
 			add([]string{"K", "x", "v"}, T(as("v", vi(1))), T(asx("g1", expr{kind: 'M', y: "v", v: v})), call("x"), T(as("v", vi(7))), call("x"), T(rd("v")))
+		}
+	}
+	// a constant holding a function: another closure with the SAME TEXT over a different environment must be refused
+	// (mk=func(mkn){func(){mkn}}; F=mk(1); F=mk(2); F()), the very same function value accepted
+	for _, sc := range []byte{'T', 'F', 'L'} {
+		for _, def := range []bool{false, true} {
+			mkv := func(n string, v val) event {
+				return event{'T', attempt{kind: "AS", name: n, ex: expr{kind: 'K', v: v}, flag: def}}
+			}
+			add([]string{"F", "g", "x"}, mkv("F", vi(1)), T(asx("x", expr{kind: 'G', y: "F"})), mkv("F", vi(2)), T(asx("x", expr{kind: 'G', y: "F"})),
+				mkv("F", vi(1)), T(asx("g", expr{kind: 'N', y: "F"})), event{sc, attempt{kind: "AS", name: "F", ex: expr{kind: 'N', y: "g"}, flag: def}},
+				mkv("g", parr(10, 1)), event{sc, attempt{kind: "AS", name: "F", ex: expr{kind: 'N', y: "g"}, flag: def}}, event{sc, asx("x", expr{kind: 'G', y: "F"})},
+				event{sc, attempt{kind: "FL", name: "F", l: []val{vi(3)}}}, event{sc, attempt{kind: "CA", name: "F", y: "g", k: vi(0), v: vi(1)}}, T(rd("F")))
+			add([]string{"FA", "g", "x"}, mkv("g", vi(1)), T(asx("FA", expr{kind: 'W', y: "g"})), mkv("g", vi(2)), event{sc, attempt{kind: "AS", name: "FA", ex: expr{kind: 'W', y: "g"}, flag: def}},
+				T(asx("x", expr{kind: 'X', y: "FA", k: vi(0)})), T(asx("x", expr{kind: 'G', y: "x"})))
 		}
 	}
 	// the new value is COMPUTED FROM the constant or from a value sharing its storage: K=K[0:n]+e, K=K+e, B=A+e twice
@@ -1114,7 +1175,10 @@ func c19Random(c *Ctx, nEvents int) {
 			yv := cur[y]
 			ln := int64(len(yv.els))
 			var x expr
-			switch c.R.Intn(11) {
+			switch c.R.Intn(12) {
+			case 11: // same-text closures again (so that re-binding a function-valued constant is frequent)
+				sc = 'T'
+				x = expr{kind: 'K', v: randLeaf(c)}
 			case 7, 8: // computed from y (often the assigned name itself): y+e, y[l:r]+e
 				if c.R.Pct(60) {
 					y, yv, ln = n, v, int64(len(v.els))
@@ -1139,7 +1203,14 @@ func c19Random(c *Ctx, nEvents int) {
 				n = []string{"g1", "g2"}[c.R.Intn(2)]
 				x = expr{kind: 'M', y: names[c.R.Intn(len(names))], v: randVal(c, 1)}
 			case 10:
-				x = expr{kind: 'G', y: []string{"g1", "g2"}[c.R.Intn(2)]}
+				if c.R.Bool() {
+					x = expr{kind: 'G', y: []string{"g1", "g2"}[c.R.Intn(2)]}
+				} else if c.R.Bool() {
+					x = expr{kind: 'G', y: y}
+				} else { // a same-text closure, mostly onto a constant name
+					sc = 'T'
+					x = expr{kind: 'K', v: randLeaf(c)}
+				}
 			case 0:
 				x = expr{kind: 'N', y: y}
 			case 1:
